@@ -15,7 +15,11 @@ RULE = ('random balanced reactions (C05 generator) over 15 chemicals with known 
         'gas and liquid feeds 280-450 K; single/parallel/series/system. Coverage additions: dH with X=0, with Glucose (solid reference) and phases g/l/s (all six latent branches), dH of a '
         're-based copy (copy(basis=) and the basis setter) against the formula in the other basis; isothermal formation-enthalpy change of parallel/series/system = sum of member dH x reactant '
         'amount seen by the member (feed for parallel, running for series); sparse feeds (products start from zero); heat inputs worth up to +-100 K, Q by keyword and an explicit Q=0; '
-        'streams on another property package. non-trivial = X>0, reactant fed, >=3 species; distinct = hash of the case')
+        'streams on another property package. Conversion-update histories (kind hist, n/4 extra cases): handles (set[i], iteration items, negative index, items of a slice, slices, system parts by '
+        'index/iteration/.reactions) taken before/between/after updates of the conversions (set.X = list/array/scalar, set.X[i]/[a:b] writes, set.X *= k, set.X = set.X, item.X = x, item *= k, item /= k, '
+        'slice.X = ..., slice.X[j], slice[j].X, slice.X *= k, system.X = [...], Reaction.X / *= / /=) and snapshots (copy, re-based copy, basis setter on a copy, item copy, k*r, r*k, r/k, slice copy) '
+        'taken before later updates: every handle reports dH with the conversion in force, every snapshot with the conversion it was made with; the set / an earlier item / a slice / a system part '
+        'is then applied isothermally (formation-enthalpy change = sum of the handles\' dH x reactant seen) or adiabatically with Q. non-trivial = X>0, reactant fed, >=3 species; distinct = hash of the case')
 MIN_NONTRIVIAL = {'quick': 300, 'thorough': 10000}
 ASSUMPTIONS = ['heats of formation, Hvap(298.15) and Hfus are read from the library chemicals (the check judges the wiring, not the data)',
                'isothermal clause away from the reference state uses the Kirchhoff-corrected identity (DESIGN C06)']
@@ -27,7 +31,14 @@ NOGLU = tuple(i for i in R.IDS if i != 'Glucose')
 def required(tier):
     return ['dH', 'dH:tagged', 'dH:wt', 'isothermal', 'isothermal-literal', 'adiabatic', 'adiabatic:Q', 'adiabatic:no-conversion+Q', 'dH:set-item', 'comb:parallel', 'comb:series', 'comb:system',
             'dH:X=0', 'dH:solid-phase', 'dH:solid-reference', 'dH:rebased', 'isothermal:set-dH-times-fed', 'feed:sparse', 'adiabatic:Q-large', 'adiabatic:Q-keyword', 'adiabatic:Q=0-explicit',
-            'stream:other-package']
+            'stream:other-package',
+            'hist', 'hist:dH', 'hist:fresh-after-update', 'hist:handle-before-update', 'hist:handle-after-update', 'hist:set-assign', 'hist:subset-assign', 'hist:subset-route', 'hist:item-route', 'hist:system-assign',
+            'hist:snapshot', 'hist:snapshot-source-updated', 'hist:iso', 'hist:iso:top', 'hist:iso:item', 'hist:iso:subset', 'hist:iso:part', 'hist:adiabatic', 'hist:apply-held-subset',
+            'hist:handles:getitem', 'hist:handles:iter', 'hist:handles:neg-index', 'hist:handles:subset-item', 'hist:handles:self',
+            'hist:route:assign-list', 'hist:route:assign-array', 'hist:route:assign-scalar', 'hist:route:elem', 'hist:route:slice-write', 'hist:route:imul', 'hist:route:self-assign',
+            'hist:route:item-assign', 'hist:route:item-imul', 'hist:route:item-itruediv', 'hist:route:subset-assign', 'hist:route:subset-elem', 'hist:route:subset-item-assign',
+            'hist:route:subset-imul', 'hist:route:single-assign', 'hist:route:single-imul', 'hist:route:single-itruediv',
+            'hist:snap:set-copy', 'hist:snap:set-copy-rebased', 'hist:snap:subset-copy', 'hist:snap:item-copy', 'hist:snap:item-copy-rebased', 'hist:snap:item-mul', 'hist:snap:copy', 'hist:snap:mul']
 
 
 def gen_case(rng):
@@ -144,6 +155,7 @@ def mol_by_id(s):
 
 def run_case(case, rec):
     from vt.workloads.c05 import build
+    if case.get('kind') == 'hist': return run_hist(case, rec)
     rec.begin_case(case)
     th = R.thermo()
     ch = {c.ID: c for c in th.chemicals}
@@ -301,6 +313,407 @@ def run_case(case, rec):
     rec.mark_nontrivial(case_hash(case))
 
 
+# ---------------------------------------------------------------------------------------------------------------
+# conversion-update histories: the heat a reaction object reports, and the enthalpy it moves, must follow the conversions in force
+# whatever the order in which handles (items, iteration items, slices, items of slices, parts of a system) were taken and the conversions
+# were re-assigned (whole-array / scalar / element / in-place scaling on the set, through an item, through a slice, through the system),
+# and snapshots (copy, re-based copy, item copy, k*item, item/k) must keep the conversions they were made with.
+
+SET_ROUTES = ('assign-list', 'assign-list', 'assign-list', 'assign-array', 'assign-array', 'assign-array', 'assign-scalar', 'assign-scalar', 'elem', 'slice-write', 'imul', 'self-assign',
+              'item-assign', 'item-assign', 'item-imul', 'item-itruediv', 'subset-assign', 'subset-assign', 'subset-assign', 'subset-elem', 'subset-item-assign', 'subset-imul')
+HIST_CAP = 0.3333
+
+
+def _gen_slice(rng, n):
+    a = rng.randrange(0, n); b = rng.randrange(a + 1, n + 1)
+    sl = [a, b]
+    if b == n and rng.random() < 0.4: sl[1] = None
+    if a == 0 and rng.random() < 0.4: sl[0] = None
+    return sl
+
+
+def _slice_bounds(sl, n):
+    return (sl[0] or 0), (n if sl[1] is None else sl[1])
+
+
+def gen_hist_case(rng):
+    basis = rng.choice(['mol', 'mol', 'wt'])
+    tagged = rng.random() < 0.25
+    phase = rng.choice('lg'); allowed = NOGLU
+    phmap = {i: rng.choice('lg') for i in R.IDS} if tagged else None
+    comb = rng.choice(['parallel', 'parallel', 'series', 'series', 'system', 'system', 'single'])
+    cap = 1.0 if comb == 'single' else HIST_CAP
+    def newx(): return rng.choice([0.0, cap, round(rng.uniform(0.01, cap), 4), round(rng.uniform(0.01, cap), 4), round(rng.uniform(0.01, cap), 4)])
+    def one():
+        for _ in range(30):
+            d = R.gen_reaction(rng, allowed=allowed, phases_p=0)
+            if set(d['st']) <= set(allowed): break
+        d['basis'] = basis
+        d['X'] = round(rng.choice([1.0, 0.5, rng.uniform(0.01, 1), rng.uniform(0.01, 0.3)]) * cap, 5)
+        if tagged: d['ph'] = {i: phmap[i] for i in d['st']}
+        return d
+    if comb == 'single':
+        members = [one()]; sizes = [1]; kinds = ['single']; flat = members
+    elif comb in ('parallel', 'series'):
+        members = [one() for _ in range(rng.randrange(2, 4))]; sizes = [len(members)]; kinds = [comb]; flat = members
+    else:
+        members = []
+        for _ in range(rng.randrange(2, 4)):
+            k = rng.choice(['single', 'parallel', 'series'])
+            members.append({'k': k, 'rx': [one() for _ in range(1 if k == 'single' else rng.randrange(2, 4))]})
+        sizes = [len(m['rx']) for m in members]; kinds = [m['k'] for m in members]; flat = [r for m in members for r in m['rx']]
+    flows = {i: round(10 ** rng.uniform(2.5, 3.5), 3) for i in allowed}
+    for m in flat: flows[m['reactant']] = round(10 ** rng.uniform(0, 1.3), 4)
+    if rng.random() < 0.3:
+        consumed = {i for m in flat for i, v in m['st'].items() if v < 0}
+        for i in list(flows):
+            if i not in consumed and rng.random() < 0.5: flows[i] = 0.0
+    nparts = len(sizes)
+    sysvia = lambda: rng.choice(['getitem', 'iter', 'reactions'])
+    def gen_handles():
+        p = rng.randrange(nparts)
+        st = {'op': 'handles', 'p': p, 'sysvia': sysvia()}
+        if kinds[p] == 'single': st['how'] = 'self'
+        else:
+            st['how'] = rng.choice(['getitem', 'getitem', 'iter', 'neg-index', 'subset-item'])
+            if st['how'] == 'subset-item': st['sl'] = _gen_slice(rng, sizes[p])
+        return st
+    def gen_snap():
+        p = rng.randrange(nparts)
+        st = {'op': 'snap', 'p': p, 'sysvia': sysvia()}
+        if kinds[p] == 'single': st['form'] = rng.choice(['copy', 'copy-rebased', 'setter-rebased', 'mul', 'rmul', 'div'])
+        else:
+            st['form'] = rng.choice(['set-copy', 'set-copy', 'set-copy-rebased', 'subset-copy', 'item-copy', 'item-copy-rebased', 'item-mul', 'item-rmul', 'item-div'])
+            st['i'] = rng.randrange(sizes[p])
+            if st['form'] == 'subset-copy': st['sl'] = _gen_slice(rng, sizes[p])
+        if st['form'].endswith(('mul', 'div')): st['k'] = rng.choice([2.0, 4.0, round(rng.uniform(1, 5), 3)]) if st['form'].endswith('div') else rng.choice([0.5, 0.25, round(rng.uniform(0.05, 1), 3)])
+        return st
+    def gen_update():
+        if comb == 'system' and rng.random() < 0.35:
+            xs = [newx() if kinds[p] == 'single' else [newx() for _ in range(sizes[p])] for p in range(nparts)]
+            return {'op': 'update', 'route': 'system-assign', 'x': xs, 'as': rng.choice(['list', 'array', 'tuple'])}
+        p = rng.randrange(nparts); n = sizes[p]
+        st = {'op': 'update', 'p': p, 'sysvia': sysvia()}
+        if kinds[p] == 'single':
+            st['route'] = rng.choice(['assign', 'assign', 'imul', 'itruediv'])
+            if st['route'] == 'assign': st['v'] = newx()
+            else: st['k'] = rng.choice([0.5, 0.25, round(rng.uniform(0.05, 1), 3)]) if st['route'] == 'imul' else rng.choice([2.0, 4.0, round(rng.uniform(1, 5), 3)])
+            return st
+        route = st['route'] = rng.choice(SET_ROUTES)
+        if route in ('assign-list', 'assign-array'): st['x'] = [newx() for _ in range(n)]
+        elif route == 'assign-scalar': st['v'] = rng.choice([newx(), 0, newx()])
+        elif route == 'elem': st['i'] = rng.randrange(n); st['v'] = newx()
+        elif route == 'slice-write': st['sl'] = _gen_slice(rng, n); a, b = _slice_bounds(st['sl'], n); st['x'] = [newx() for _ in range(b - a)]
+        elif route in ('imul', 'subset-imul'): st['k'] = rng.choice([0.5, 0.25, 0.0, round(rng.uniform(0.05, 1), 3)])
+        elif route == 'item-assign': st['i'] = rng.randrange(n); st['v'] = newx(); st['via'] = rng.choice(['fresh', 'held', 'held'])
+        elif route == 'item-imul': st['i'] = rng.randrange(n); st['k'] = rng.choice([0.5, 0.25, round(rng.uniform(0.05, 1), 3)]); st['via'] = rng.choice(['fresh', 'held'])
+        elif route == 'item-itruediv': st['i'] = rng.randrange(n); st['k'] = rng.choice([2.0, 4.0, round(rng.uniform(1, 5), 3)]); st['via'] = rng.choice(['fresh', 'held'])
+        if route.startswith('subset'):
+            st['sl'] = _gen_slice(rng, n); a, b = _slice_bounds(st['sl'], n); st['via'] = rng.choice(['fresh', 'held'])
+            if route == 'subset-assign':
+                st['as'] = rng.choice(['list', 'array', 'scalar'])
+                st['x'] = newx() if st['as'] == 'scalar' else [newx() for _ in range(b - a)]
+            elif route in ('subset-elem', 'subset-item-assign'): st['j'] = rng.randrange(b - a); st['v'] = newx()
+        return st
+    steps = []
+    for u in range(rng.choice([1, 1, 2, 3])):
+        if rng.random() < 0.85: steps.append(gen_handles())
+        if rng.random() < 0.3: steps.append(gen_handles())
+        if rng.random() < 0.35: steps.append(gen_snap())
+        steps.append(gen_update())
+    if rng.random() < 0.5: steps.append(gen_handles())
+    mode = rng.choice(['dH', 'dH', 'iso', 'iso', 'iso', 'adiabatic'])
+    final = {'mode': mode}
+    if mode != 'dH':
+        via = 'top' if comb == 'single' else rng.choice(['top', 'top', 'item', 'subset'] + (['part', 'part'] if comb == 'system' else []))
+        p = rng.randrange(nparts)
+        if kinds[p] == 'single' and via in ('item', 'subset'): via = 'part' if comb == 'system' else 'top'
+        final.update(via=via, p=p, sysvia=sysvia())
+        if via == 'item': final['i'] = rng.randrange(sizes[p])
+        if via == 'subset': final['sl'] = _gen_slice(rng, sizes[p]); final['held'] = rng.random() < 0.6
+        if mode == 'adiabatic':
+            final['Q'] = rng.choice([-1, 1]) * 10 ** rng.uniform(3, 6) if rng.random() < 0.6 else 0.0
+            final['Qform'] = rng.choice(['positional', 'keyword'])
+    case = {'kind': 'hist', 'comb': comb, 'members': members, 'tagged': tagged, 'phmap': phmap, 'basis': basis, 'flows': flows, 'phase': phase,
+            'T': round(rng.uniform(280, 450), 2), 'P': rng.choice([101325., 5e4, 5e5]), 'steps': steps, 'final': final}
+    if mode != 'dH' and rng.random() < 0.2: case['foreign'] = True
+    return case
+
+
+class _Part:
+    """one reaction or reaction set under test with the conversions the history has put in force (the model)."""
+    __slots__ = ('obj', 'kind', 'descs', 'X', 'route', 'nupd')
+    def __init__(self, obj, kind, descs):
+        self.obj = obj; self.kind = kind; self.descs = descs; self.X = [float(d['X']) for d in descs]; self.route = None; self.nupd = 0
+    def desc(self, i, **kw): return dict(self.descs[i], X=self.X[i], **kw)
+
+
+def run_hist(case, rec):
+    from vt.workloads.c05 import build, model as dense
+    rec.begin_case(case)
+    th = R.thermo()
+    ch = {c.ID: c for c in th.chemicals}
+    comb = case['comb']; basis = case['basis']
+    tag = f'{comb}/{basis}/{"tagged" if case["tagged"] else "phase-less"}'
+    try:
+        rx = build(case, th)
+    except Exception as e:
+        rec.exception('construct', e, what=f'constructing reaction raised {type(e).__name__}: {e}'); return
+    rec.hit('hist'); rec.hit('hist:comb:' + comb)
+    if comb == 'system':
+        parts = [_Part(None, m['k'], [dict(d) for d in m['rx']]) for m in case['members']]
+    else:
+        parts = [_Part(rx, comb, [dict(d) for d in case['members']])]
+    def pobj(p, via='getitem'):
+        if comb != 'system': return rx
+        o = rx[p] if via == 'getitem' else (list(rx)[p] if via == 'iter' else rx.reactions[p])
+        parts[p].obj = o
+        return o
+    handles = []     # {'h', 'p', 'i', 'how', 'epoch'}
+    subsets = []     # {'h', 'p', 'a', 'b', 'epoch'}
+    snaps = []       # {'objs': [(object, frozen description)], 'form', 'p', 'epoch'}
+    def held(p, i, sound=False):
+        for h in handles:
+            if h['p'] == p and h['i'] == i and not (sound and h.get('failed')): return h['h']
+        return None
+    def reporter(p, i):
+        """the object asked for the heat of member i of part p: the earliest handle held, else a fresh one."""
+        h = held(p, i)
+        if h is not None: return h
+        o = pobj(p)
+        return o if parts[p].kind == 'single' else o[i]
+    def dH_check(o, d, key, what, rebased=False):
+        try: got = o.dH
+        except Exception as e:
+            rec.exception('dH', e, what=f'{what}: dH raised {type(e).__name__}: {e}'); return False
+        exp = expected_dH(d, th)
+        scale = max(abs(exp), max(abs(ch[i].Hf) for i in d['st']) * 1e-3 / (ch[d['reactant']].MW if (rebased and d['basis'] == 'wt') else 1.0), 1e-300)
+        okshape = np.ndim(got) == 0
+        tol = 1e-10 * scale if rebased else 1e-11 * scale + 1e-12 * abs(exp)
+        return rec.check(okshape and abs(got - exp) <= tol, 'dH', key, f'{what}: reports dH={got!r} but (conversion in force = {d["X"]!r}) * sum(nu*(Hf+latent)){"/MW" if d["basis"] == "wt" else ""} = {exp!r}',
+                  residual=(abs(got - exp) / scale) if okshape else None)
+    def check_all(last):
+        """True when every handle and snapshot reports the heat the model expects; after a failure the object and the model have parted: the rest of the history is not judged
+        (everything later would fail for the same reason under the name of a later update)."""
+        good = True
+        for h in handles:
+            pt = parts[h['p']]
+            if not pt.nupd or h.get('failed'): continue       # a handle that already failed is not judged again: the key names the update that broke it
+            before = h['epoch'] < pt.nupd
+            rec.hit('hist:handle-before-update' if before else 'hist:handle-after-update'); rec.hit('hist:dH')
+            if not dH_check(h['h'], pt.desc(h['i']), f'history/{pt.route}/{h["how"]}-taken-{"before" if before else "after"}/{tag}',
+                            f'{h["how"]} handle of member {h["i"]} taken {"before" if before else "after"} the conversions were last changed ({pt.route})'): h['failed'] = True; good = False
+        for p_, pt in enumerate(parts):
+            # the object itself, asked afresh, right after the update (a history whose update did not reach the object is named by that update, not by a later one)
+            if pt.nupd and last != 'end' and (last == 'system-assign' or p_ == upd_part[0]):
+                o = pobj(p_)
+                for i in range(len(pt.X)):
+                    rec.hit('hist:fresh-after-update')
+                    if not dH_check(o if pt.kind == 'single' else o[i], pt.desc(i), f'history/{pt.route}/fresh-item-after/{tag}', f'member {i} fetched right after the update ({pt.route})'): good = False
+        for sn in snaps:
+            if sn.get('failed'): continue
+            pt = parts[sn['p']]
+            touched = pt.nupd > sn['epoch']
+            if touched: rec.hit('hist:snapshot-source-updated')
+            rec.hit('hist:snapshot')
+            for o, d in sn['objs']:
+                if not dH_check(o, d, f'history/snapshot-{sn["form"]}/{("source-updated-" + str(pt.route)) if touched else "fresh"}/{tag}',
+                                f'{sn["form"]} snapshot' + (f' after its source was updated ({pt.route})' if touched else ''), rebased='rebased' in sn['form']): sn['failed'] = True; good = False
+        return good
+    step = None; upd_part = [None]
+    try:
+        for step in case['steps']:
+            op = step['op']
+            if op == 'update' and step['route'] == 'system-assign':
+                xs = step['x']
+                val = [(x if parts[p].kind == 'single' else (np.array(x, float) if step['as'] == 'array' else list(x))) for p, x in enumerate(xs)]
+                rx.X = tuple(val) if step['as'] == 'tuple' else val
+                for p, x in enumerate(xs):
+                    pobj(p)
+                    parts[p].X = [float(x)] if parts[p].kind == 'single' else [float(v) for v in x]
+                    parts[p].route = 'system-assign'; parts[p].nupd += 1
+                rec.hit('hist:route:system-assign'); rec.hit('hist:system-assign')
+                if not check_all('system-assign'): rec.hit('hist:stopped-after-failure'); return
+                continue
+            p = step['p']; pt = parts[p]; S = pobj(p, step.get('sysvia', 'getitem')); n = len(pt.X)
+            if op == 'handles':
+                how = step['how']; ep = pt.nupd
+                if how == 'self': handles.append({'h': S, 'p': p, 'i': 0, 'how': 'self', 'epoch': ep})
+                elif how == 'subset-item':
+                    a, b = _slice_bounds(step['sl'], n)
+                    sub = S[slice(*step['sl'])]
+                    subsets.append({'h': sub, 'p': p, 'a': a, 'b': b, 'epoch': ep})
+                    for j in range(b - a): handles.append({'h': sub[j], 'p': p, 'i': a + j, 'how': how, 'epoch': ep})
+                else:
+                    its = list(S) if how == 'iter' else None
+                    for i in range(n):
+                        h = S[i] if how == 'getitem' else (its[i] if how == 'iter' else S[i - n])
+                        handles.append({'h': h, 'p': p, 'i': i, 'how': how, 'epoch': ep})
+                rec.hit('hist:handles:' + how)
+            elif op == 'snap':
+                form = step['form']; ep = pt.nupd; other = 'wt' if basis == 'mol' else 'mol'
+                if form in ('set-copy', 'set-copy-rebased'):
+                    c = S.copy(basis=other) if form == 'set-copy-rebased' else S.copy()
+                    objs = [(c[i], pt.desc(i, **({'basis': other} if form == 'set-copy-rebased' else {}))) for i in range(n)]
+                elif form == 'subset-copy':
+                    a, b = _slice_bounds(step['sl'], n)
+                    c = S[slice(*step['sl'])].copy()
+                    objs = [(c[j], pt.desc(a + j)) for j in range(b - a)]
+                else:
+                    i = step.get('i', 0)
+                    src = S if pt.kind == 'single' else (held(p, i, sound=True) or S[i])
+                    if form in ('copy', 'item-copy'): objs = [(src.copy(), pt.desc(i))]
+                    elif form in ('copy-rebased', 'item-copy-rebased'): objs = [(src.copy(basis=other), pt.desc(i, basis=other))]
+                    elif form == 'setter-rebased':
+                        c = src.copy(); c.basis = other; objs = [(c, pt.desc(i, basis=other))]
+                    else:
+                        k = step['k']
+                        if form.endswith('rmul'): c = k * src; x = pt.X[i] * k
+                        elif form.endswith('mul'): c = src * k; x = pt.X[i] * k
+                        else: c = src / k; x = pt.X[i] * (1. / k)
+                        d = pt.desc(i); d['X'] = x
+                        objs = [(c, d)]
+                snaps.append({'objs': objs, 'form': form, 'p': p, 'epoch': ep})
+                rec.hit('hist:snap:' + form)
+            else:
+                route = step['route']
+                if route == 'assign': S.X = step['v']; pt.X = [float(step['v'])]
+                elif route == 'imul' and pt.kind == 'single': S *= step['k']; pt.X = [pt.X[0] * step['k']]
+                elif route == 'itruediv': S /= step['k']; pt.X = [pt.X[0] * (1. / step['k'])]
+                elif route == 'assign-list': S.X = list(step['x']); pt.X = [float(v) for v in step['x']]
+                elif route == 'assign-array': S.X = np.array(step['x'], float); pt.X = [float(v) for v in step['x']]
+                elif route == 'assign-scalar': S.X = step['v']; pt.X = [float(step['v'])] * n
+                elif route == 'elem': S.X[step['i']] = step['v']; pt.X[step['i']] = float(step['v'])
+                elif route == 'slice-write':
+                    a, b = _slice_bounds(step['sl'], n)
+                    S.X[slice(*step['sl'])] = step['x']; pt.X[a:b] = [float(v) for v in step['x']]
+                elif route == 'imul': S.X *= step['k']; pt.X = [v * step['k'] for v in pt.X]
+                elif route == 'self-assign': S.X = S.X
+                elif route in ('item-assign', 'item-imul', 'item-itruediv'):
+                    i = step['i']
+                    it = (held(p, i, sound=True) if step['via'] == 'held' else None)
+                    if it is None: it = S[i]
+                    if route == 'item-assign': it.X = step['v']; pt.X[i] = float(step['v'])
+                    elif route == 'item-imul': it *= step['k']; pt.X[i] = pt.X[i] * step['k']
+                    else: it /= step['k']; pt.X[i] = pt.X[i] * (1. / step['k'])
+                else:
+                    a, b = _slice_bounds(step['sl'], n)
+                    sub = None
+                    if step['via'] == 'held':
+                        for sb in subsets:
+                            if sb['p'] == p and (sb['a'], sb['b']) == (a, b): sub = sb['h']; break
+                    if sub is None: sub = S[slice(*step['sl'])]
+                    if route == 'subset-assign':
+                        if step['as'] == 'scalar': sub.X = step['x']; pt.X[a:b] = [float(step['x'])] * (b - a)
+                        else: sub.X = np.array(step['x'], float) if step['as'] == 'array' else list(step['x']); pt.X[a:b] = [float(v) for v in step['x']]
+                    elif route == 'subset-elem': sub.X[step['j']] = step['v']; pt.X[a + step['j']] = float(step['v'])
+                    elif route == 'subset-item-assign': sub[step['j']].X = step['v']; pt.X[a + step['j']] = float(step['v'])
+                    else: sub.X *= step['k']; pt.X[a:b] = [v * step['k'] for v in pt.X[a:b]]
+                    rec.hit('hist:subset-route')
+                if route in ('assign-list', 'assign-array', 'assign-scalar'): rec.hit('hist:set-assign')
+                if route == 'subset-assign': rec.hit('hist:subset-assign')
+                if route.startswith('item-'): rec.hit('hist:item-route')
+                pt.route = route if pt.kind != 'single' else 'single-' + route
+                pt.nupd += 1; upd_part[0] = p
+                rec.hit('hist:route:' + pt.route)
+                if not check_all(route): rec.hit('hist:stopped-after-failure'); return
+        if case['steps'] and case['steps'][-1]['op'] == 'handles' and not check_all('end'): return     # the handles taken after the last update
+    except Exception as e:
+        rec.exception('history', e, what=f'history step {step!r} raised {type(e).__name__}: {str(e)[:200]}'); return
+    final = case['final']; mode = final['mode']
+    rec.mark_nontrivial(case_hash(case))
+    if mode == 'dH': return
+    # the object applied to the stream and the members it stands for: [(kind, [(description with the conversion in force, object reporting the heat)])]
+    via = final['via']
+    def grp(p, a=None, b=None):
+        pt = parts[p]
+        rng_ = range(len(pt.X)) if a is None else range(a, b)
+        return (pt.kind, [(pt.desc(i), reporter(p, i)) for i in rng_])
+    try:
+        if via == 'top': A = rx; groups = [grp(p) for p in range(len(parts))]
+        elif via == 'part': A = pobj(final['p'], final.get('sysvia', 'getitem')); groups = [grp(final['p'])]
+        elif via == 'item':
+            A = reporter(final['p'], final['i']); groups = [('single', [(parts[final['p']].desc(final['i']), A)])]
+        else:
+            p = final['p']; a, b = _slice_bounds(final['sl'], len(parts[p].X)); A = None
+            if final.get('held'):
+                for sb in subsets:
+                    if sb['p'] == p and (sb['a'], sb['b']) == (a, b): A = sb['h']; rec.hit('hist:apply-held-subset'); break
+            if A is None: A = pobj(p)[slice(*final['sl'])]
+            groups = [grp(p, a, b)]
+    except Exception as e:
+        rec.exception('history', e, what=f'taking the object to apply ({via}) raised {type(e).__name__}: {str(e)[:200]}'); return
+    s = build_stream(case, th)
+    n0 = mol_by_id(s)
+    try:
+        H0, Hf0, Hnet0 = s.H, s.Hf, s.Hnet
+    except Exception as e:
+        rec.exception('stream-H', e, what=f'reading H/Hf/Hnet raised {type(e).__name__}: {e}'); return
+    lastroute = next((pt.route for pt in parts if pt.route), 'none') if comb != 'system' else 'system'
+    if mode == 'iso':
+        try:
+            A(s)
+        except InfeasibleRegion:
+            rec.refuse('infeasible'); return
+        except Exception as e:
+            rec.exception('isothermal', e, what=f'reaction call ({via}) after a conversion history raised {type(e).__name__}: {e}'); return
+        n1 = mol_by_id(s)
+        H1, Hf1, Hnet1 = s.H, s.Hf, s.Hnet
+        dHf_model = sum((n1.get(i, 0.0) - n0.get(i, 0.0)) * ch[i].Hf for i in set(n0) | set(n1))
+        scale = max(abs(Hnet0), abs(Hnet1), abs(dHf_model), 1e-300)
+        rec.check(abs((Hnet1 - Hnet0) - (H1 - H0) - dHf_model) <= 1e-10 * scale, 'isothermal', f'history/Hnet-H-Hf/{via}/{tag}',
+                  f'change of (Hnet - H) = {(Hnet1 - Hnet0) - (H1 - H0)!r} but sum(dn_i*Hf_i) = {dHf_model!r}', residual=abs((Hnet1 - Hnet0) - (H1 - H0) - dHf_model) / scale)
+        rec.check(abs(s.T - case['T']) == 0, 'isothermal', f'history/T-changed/{via}/{tag}', f'isothermal reaction changed T {case["T"]} -> {s.T}')
+        key = (lambda i: (case['phmap'][i], i)) if case['tagged'] else (lambda i: i)
+        fl = {key(i): v for i, v in case['flows'].items() if v}
+        exp = 0.0
+        for k_, pairs in groups:
+            for d, o in pairs:
+                r = d['reactant']
+                fed = fl.get(key(r), 0.0) * (ch[r].MW if d['basis'] == 'wt' else 1.0)
+                lat = 0.0
+                if d.get('ph'):
+                    lat = d['X'] * sum((v / -d['st'][r]) * latent(ch[i], d['ph'][i]) for i, v in d['st'].items())
+                    if d['basis'] == 'wt': lat /= ch[r].MW
+                try: dh = o.dH
+                except Exception as e:
+                    rec.exception('dH', e, what=f'dH of a member raised {type(e).__name__}: {e}'); return
+                if np.ndim(dh) != 0: return            # judged by the dH clause
+                exp += (dh - lat) * fed
+                if k_ != 'parallel': fl = R.model_apply(fl, d)
+            if k_ == 'parallel': fl = dense({'comb': 'parallel', 'members': [d for d, _ in pairs]}, fl)
+        den = max(abs(exp), abs(Hnet0), 1e-300)
+        rec.hit('hist:iso'); rec.hit('hist:iso:' + via)
+        rec.check(abs(dHf_model - exp) <= 1e-9 * den, 'isothermal', f'history/dH-times-fed/{via}/after-{lastroute}/{tag}',
+                  f'after the conversion history, reacting with the {via} object: formation-enthalpy change {dHf_model!r} != sum over members of (reported dH - latent)*fed = {exp!r}',
+                  residual=abs(dHf_model - exp) / den)
+        if case.get('foreign'): rec.hit('stream:other-package')
+        return
+    Q = final['Q']
+    try:
+        if Q and final.get('Qform') == 'keyword': A.adiabatic_reaction(s, Q=Q)
+        elif Q: A.adiabatic_reaction(s, Q)
+        else: A.adiabatic_reaction(s)
+    except InfeasibleRegion:
+        rec.refuse('infeasible'); return
+    except Exception as e:
+        if isinstance(e, (RuntimeError, ValueError, FloatingPointError, ZeroDivisionError, OverflowError)) and any(w in str(e) for w in ('extrapolate', 'Negative temperature', 'temperature', 'root could not be solved', 'divide', 'overflow', 'invalid value')):
+            rec.refuse('outlet temperature outside the property models (the T solve raised)'); return
+        rec.exception('adiabatic', e, what=f'adiabatic_reaction ({via}) after a conversion history raised {type(e).__name__}: {str(e)[:200]}'); return
+    T1 = s.T
+    if not (200 < T1 < 2500):
+        rec.refuse('outlet temperature outside the property models'); return
+    try:
+        Hnet1 = s.Hnet; C1 = s.C
+    except Exception as e:
+        rec.exception('adiabatic', e, what=f'reading Hnet/C after adiabatic reaction raised {type(e).__name__}: {e}'); return
+    res = abs(Hnet1 - (Hnet0 + Q))
+    rec.hit('hist:adiabatic'); rec.hit('hist:adiabatic:' + via)
+    rec.check(res <= 1e-5 * C1 + 1e-12 * abs(Hnet0), 'adiabatic', f'history/{via}/{tag}' + ('/Q' if Q else ''),
+              f'after the conversion history ({via} object): Hnet after {Hnet1!r} != Hnet before + Q = {Hnet0 + Q!r} (residual {res:.3g} kJ/hr, C={C1:.4g} kJ/hr/K, T {case["T"]} -> {T1:.3f})', residual=res / max(C1, 1e-300))
+    if case.get('foreign'): rec.hit('stream:other-package')
+
+
 def replay(case, rec):
     run_case(case, rec)
 
@@ -310,6 +723,14 @@ def run(rec, rng, tier, shard, nshards):
     n = 3000 if tier == 'quick' else 25000
     for i in range(n):
         case = gen_case(rng)
+        try:
+            run_case(case, rec)
+        except Exception as e:
+            rec.exception('harness', e, what=f'harness error: {type(e).__name__}: {e}')
+        if i % 301 == 0: rec.sample(case)
+    # conversion-update histories (added after the original cases: their generator stream is unchanged)
+    for i in range(n // 4):
+        case = gen_hist_case(rng)
         try:
             run_case(case, rec)
         except Exception as e:
